@@ -62,9 +62,9 @@ type PoisonV struct{ Why string }
 
 // range iterator state for strings / maps
 type IterV struct {
-	Str  StrV
-	Pos  int
-	Map  *MapObj
+	Str StrV
+	Pos int
+	Map *MapObj
 }
 
 // ---------- memory nodes ----------
@@ -79,9 +79,9 @@ type ArrayNode struct {
 }
 type BytesNode struct {
 	id   int
-	head *layer            // frozen layers
-	mut  map[int64]*Term   // mutable concrete-index overlay on top of head
-	n    *Term             // length in bytes (64-bit term)
+	head *layer          // frozen layers
+	mut  map[int64]*Term // mutable concrete-index overlay on top of head
+	n    *Term           // length in bytes (64-bit term)
 	memo map[[2]int]*Term
 }
 
